@@ -84,8 +84,18 @@ func c01Scopes() (exprs []*refsem.E, docs []*val.V) {
 			}
 		}
 	}
+	// reduce blocks that drop the accumulator for some elements and bring it back for later ones
+	for _, src := range []*refsem.E{refsem.Leaf("splat"), refsem.Bin("pipe", refsem.Key("a"), refsem.Leaf("splat"))} {
+		for _, lit := range []int64{1, 2, 3} {
+			for _, op := range []string{"ne", "eq"} {
+				block := refsem.Bin("pipe", v, refsem.Un("select", refsem.Bin(op, refsem.Leaf("self"), refsem.Lit(val.IntV(lit)))))
+				red := refsem.Reduce(src, "x", refsem.Lit(val.IntV(0)), block)
+				exprs = append(exprs, red, refsem.Un("collect", red), refsem.Bin("pipe", red, refsem.Bin("add", refsem.Leaf("self"), refsem.Lit(val.IntV(1)))))
+			}
+		}
+	}
 	docs = append(docs, val.Universe(2, val.Sigma(), []string{"a", "b"})...)
-	for _, t := range []string{`[1, 2, 3]`, `{"a": 1, "b": 2}`, `[[1], [2, 3]]`} {
+	for _, t := range []string{`[1, 2, 3]`, `{"a": 1, "b": 2}`, `[[1], [2, 3]]`, `[2, 1, 2]`, `[3, 2]`, `[2, 3, 1]`, `{"a": [1, 2, 3]}`, `{"a": [2, 2, 1]}`} {
 		docs = append(docs, fromJSONText(t))
 	}
 	return
